@@ -34,6 +34,11 @@ def _type_iv(rng, hysteresis=True, micro=True):
     grid += [0.02 + (0.95 - 0.02) * i / (n_hi - 1) for i in range(n_hi)]
     p_ads = grid
     l_ads = [f(p, pc_ads) for p in p_ads]
+    if rng.random() < 0.3:
+        # saturation plateau: the last adsorption points have exactly the same loading
+        k = rng.randint(2, 3)
+        for i in range(1, k + 1):
+            l_ads[-i] = l_ads[-k - 1]
     p, l = list(p_ads), list(l_ads)
     if hysteresis:
         n_des = rng.randint(10, 18)
@@ -70,6 +75,8 @@ def _toth(rng, T, q_st=None):
     pmax = rng.uniform(5.0, 12.0)
     grid = [0.01 * (pmax / 0.01) ** (i / (n - 1)) for i in range(n)]
     l = [nm * k * p / (1 + (k * p) ** t) ** (1.0 / t) for p in grid]
+    if rng.random() < 0.15:
+        l[-1] = l[-2]
     return grid, l, {"nm": nm, "k0": k0, "q": q, "t": t}
 
 
@@ -117,7 +124,13 @@ def gen_world(rng):
     if rng.random() < 0.85:
         p, l = _type_iv(rng, hysteresis=rng.random() < 0.8, micro=rng.random() < 0.7)
         roles["n2_main"] = len(isos)
-        isos.append(n2_iso(p, l, mat_a, meta={"user": "alice", "t_act": 150.5}))
+        meta = {"user": "alice", "t_act": 150.5}
+        if rng.random() < 0.4:
+            # container-valued metadata, possibly with a missing (NaN) entry
+            meta["activation_steps"] = [393.0, 423.0, float("nan")] if rng.random() < 0.6 else [393.0, 423.0]
+            if rng.random() < 0.5:
+                meta["instrument"] = {"name": "M-3", "drift": float("nan")}
+        isos.append(n2_iso(p, l, mat_a, meta=meta))
         if rng.random() < 0.7:
             p, l = _type_ii(rng)
             roles["n2_ref"] = len(isos)
